@@ -47,6 +47,7 @@ def shards(tier, seed):
     out.append(("isprime_adv", dict(kind="isprime_adv", nrand=2000 if q else 60000)))
     out.append(("isprime_large", dict(kind="isprime_large", big=not q)))
     out.append(("isprime_proth", dict(kind="isprime_proth", mmax=3400 if q else 4000)))
+    out.append(("child_werror_isprime_adv", dict(kind="isprime_adv", nrand=300, _pyopt="werror+bb")))
     for i in range(3 if q else 8):
         out.append(("first_use_%d" % i, dict(kind="first_use", runs=40 if q else 300)))
     ntop = 1 << (14 if q else 17)
